@@ -42,70 +42,84 @@ func init() {
 
 func runOverwriteClears(c *Ctx) {
 	p := c.P
-	var handler *FuncInfo
+	isAccept := func(g *FuncInfo) bool {
+		return g != nil && (g.Name == "app.(*snapshotReceiver).sendAccept" || g.Name == "app.(*snapshotReceiver).sendAcceptTo")
+	}
+	// the offer handler: the function that answers an offer, and (since F80) the goroutine in it that asks the user
+	var handlers []*FuncInfo
+	sawQuestion := false
 	for _, f := range p.FuncsIn("internal/app") {
-		if f.Lit != nil {
+		if f.Body == nil || isAccept(f) || strings.HasSuffix(p.Fset.Position(f.Pos()).Filename, "_test.go") {
 			continue
 		}
-		calls := map[string]bool{}
+		accepts, asks := false, false
 		InspectNoLits(f.Body, func(n ast.Node) bool {
 			if call, ok := n.(*ast.CallExpr); ok {
-				if g := p.CalleeInfo(f.Info(), call); g != nil {
-					calls[g.Name] = true
+				g := p.CalleeInfo(f.Info(), call)
+				if isAccept(g) {
+					accepts = true
+				}
+				if g != nil && g.Name == "app.hasResumeData" {
+					asks = true
 				}
 			}
 			return true
 		})
-		if calls["app.hasResumeData"] && calls["app.(*snapshotReceiver).sendAccept"] {
-			handler = f
+		if accepts {
+			handlers = append(handlers, f)
+			if asks {
+				sawQuestion = true
+			}
 		}
 	}
-	if handler == nil {
+	if len(handlers) == 0 || !sawQuestion {
 		c.MissingAnchor("receiver offer handler calling hasResumeData and sendAccept")
 		return
 	}
-	info := handler.Info()
-	var resumeVar types.Object
-	handler.CFG().Calls(func(r NodeRef, call *ast.CallExpr) {
-		if g := p.CalleeInfo(info, call); g != nil && g.Name == "app.promptResumeOrOverwrite" {
-			if as, ok := r.Node().(*ast.AssignStmt); ok && len(as.Lhs) == 2 {
-				resumeVar = ObjOf(info, as.Lhs[0])
-			}
-		}
-	})
-	spec := &PassSpec{Vias: []Via{
-		{Immediate: true, Call: func(f *FuncInfo, call *ast.CallExpr) (string, bool) {
-			if g := p.CalleeInfo(f.Info(), call); g != nil && g.Name == "app.clearResumeData" {
-				return "settled", true
-			}
-			return "", false
-		}},
-		{Cond: func(f *FuncInfo, e ast.Expr) (string, bool, bool) {
-			if call, ok := ast.Unparen(e).(*ast.CallExpr); ok {
-				if g := p.CalleeInfo(f.Info(), call); g != nil && g.Name == "app.hasResumeData" {
-					return "settled", false, true // no metadata present
+	n := 0
+	for _, handler := range handlers {
+		info := handler.Info()
+		var resumeVar types.Object
+		handler.CFG().Calls(func(r NodeRef, call *ast.CallExpr) {
+			if g := p.CalleeInfo(info, call); g != nil && g.Name == "app.promptResumeOrOverwrite" {
+				if as, ok := r.Node().(*ast.AssignStmt); ok && len(as.Lhs) == 2 {
+					resumeVar = ObjOf(info, as.Lhs[0])
 				}
 			}
-			if o := ObjOf(f.Info(), e); o != nil && o == resumeVar {
-				return "settled", true, true // user chose resume
+		})
+		spec := &PassSpec{Vias: []Via{
+			{Immediate: true, Call: func(f *FuncInfo, call *ast.CallExpr) (string, bool) {
+				if g := p.CalleeInfo(f.Info(), call); g != nil && g.Name == "app.clearResumeData" {
+					return "settled", true
+				}
+				return "", false
+			}},
+			{Cond: func(f *FuncInfo, e ast.Expr) (string, bool, bool) {
+				if call, ok := ast.Unparen(e).(*ast.CallExpr); ok {
+					if g := p.CalleeInfo(f.Info(), call); g != nil && g.Name == "app.hasResumeData" {
+						return "settled", false, true // no metadata present
+					}
+				}
+				if o := ObjOf(f.Info(), e); o != nil && o == resumeVar {
+					return "settled", true, true // user chose resume
+				}
+				// not the first offer: the question was settled when the first one was handled
+				if sel, ok := ast.Unparen(e).(*ast.SelectorExpr); ok && sel.Sel.Name == "manifestPrompted" {
+					return "settled", true, true
+				}
+				return "", false, false
+			}},
+		}}
+		handler.CFG().Calls(func(r NodeRef, call *ast.CallExpr) {
+			if g := p.CalleeInfo(info, call); isAccept(g) {
+				n++
+				c.Check(spec.Passed(handler, r, "settled"), fmt.Sprintf("overwrite/%s#%d", handler.Name, n), call.Pos(),
+					"accept is sent only after the fate of existing resume metadata is settled (none / resume chosen / cleared)",
+					"the transfer is accepted on a path where existing resume metadata was found, the user did not choose resume, and clearResumeData did not run: 'overwrite' would silently resume",
+					"facts here: "+strings.Join(spec.PassedList(handler, r), ", "))
 			}
-			// not the first offer: the question was settled when the first one was handled
-			if sel, ok := ast.Unparen(e).(*ast.SelectorExpr); ok && sel.Sel.Name == "manifestPrompted" {
-				return "settled", true, true
-			}
-			return "", false, false
-		}},
-	}}
-	n := 0
-	handler.CFG().Calls(func(r NodeRef, call *ast.CallExpr) {
-		if g := p.CalleeInfo(info, call); g != nil && g.Name == "app.(*snapshotReceiver).sendAccept" {
-			n++
-			c.Check(spec.Passed(handler, r, "settled"), fmt.Sprintf("overwrite/%s#%d", handler.Name, n), call.Pos(),
-				"accept is sent only after the fate of existing resume metadata is settled (none / resume chosen / cleared)",
-				"the transfer is accepted on a path where existing resume metadata was found, the user did not choose resume, and clearResumeData did not run: 'overwrite' would silently resume",
-				"facts here: "+strings.Join(spec.PassedList(handler, r), ", "))
-		}
-	})
+		})
+	}
 }
 
 func runFreshFile(c *Ctx) {
